@@ -260,6 +260,11 @@ func CheckC11(o *Obs) (string, C11Summary) {
 			}
 			if oo.Err != nil {
 				sum.Errors++
+				if !justified && oo.Op.CtxDone {
+					// a call made with a cancelled context may be refused; what it did to the gate is then unknown to
+					// the model, so the rest of this history is not judged
+					return "", sum
+				}
 				if !justified {
 					return fmt.Sprintf("op %d: Process(%s) failed without a composition or send failure: %v", i, oo.Op, oo.Err), sum
 				}
